@@ -203,6 +203,8 @@ def run_index(acc: Acc, seed: int, idx: int, nq: int, only=None) -> None:
 
                     # three spellings a user may type: full, without the S clause, bare filter (the command line adds 'W ')
                     form = [f"S note W {text} G none", f"W {text} G none", text][(qi // 12) % 3]
+                    if form.startswith("-"):
+                        form = "W " + form  # (a bare filter starting with the kind character '-' would be an option for the argument parser)
                     rq = db.cli(root, "query", form)
                     acc.count("cli.query_runs")
                     zs = {hg.first_line_parts(l)[2] for l in rq.out.split("\n") if hg.ITEM_START.match(l)}
